@@ -28,6 +28,7 @@ func init() {
 			"value-level round-trip of each key string (formatting precision, escaping is C08).")
 		ruleTablesKeys(c, r)
 		ruleSignConv(c, r, c.anchored("C16"), 0)
+		ruleFloatFmt(c, r, c.funcsInScope(func(s string) bool { return s == "ygot/render.go" }, libPkgs))
 		ruleReflectSign(c, r, c.funcsInScope(func(s string) bool { return s == "ygot/render.go" || s == "ytypes/util_types.go" }, libPkgs), 4)
 		ruleWildcardOpt(c, r)
 		ruleReflectString(c, r, c.anchored("C16"))
@@ -249,6 +250,7 @@ func init() {
 		ruleIntentNormal(c, r)
 		rulePathFmtOwner(c, r, libPkgs, 20)
 		ruleIfaceEq(c, r, c.funcsInScope(func(s string) bool { return strings.HasPrefix(s, "gnmidiff/") }, []string{"gnmidiff"}))
+		ruleFloatFmt(c, r, c.funcsInScope(func(s string) bool { return s == "ygot/render.go" || strings.HasPrefix(s, "gnmidiff/") }, libPkgs))
 		ruleGnmidiffRoot(c, r)
 	})
 }
